@@ -1,5 +1,6 @@
 """C02 - matrix-free operator == assembled finite-integration operator."""
 import itertools
+from unittest import mock
 
 import numpy as np
 from hypothesis import strategies as st
@@ -8,23 +9,64 @@ from vp import gen, refop
 from vp.framework import Violation
 
 RULE = ("Per grid shape in {2..5}^3 (every shape enumerated, coefficients "
-        "drawn by Hypothesis: widths uniform/stretched/random, four "
-        "anisotropy cases, mu_r/epsilon_r on/off, frequency or Laplace s, "
-        "induction-number regime) the whole interior edge basis is pushed "
-        "through emg3d.core.amat_x (VolumeModel coefficients) and compared "
-        "entrywise with C^T M_f C + s mu0 M_e assembled by the checker; plus "
-        "symmetry, gradient null space, solver.residual and jit-vs-py_func. "
-        "Non-trivial = non-uniform widths and heterogeneous model; distinct "
-        "by (shape, case, seeds).")
+        "drawn by Hypothesis: widths uniform/stretched/random - one kind or "
+        "one per axis, stretching up to 2 -, four anisotropy cases, "
+        "mu_r/epsilon_r on/off, frequency or Laplace s given as float / "
+        "np.float64 / int / 0-d array, induction-number regime, model built "
+        "from full / flat-F / broadcast (1,1,nz),(nx,1,1) / scalar / shared "
+        "F-ordered / integer input) the whole interior edge basis (half of "
+        "the columns at a drawn amplitude 1e-25..1e5) is pushed through "
+        "emg3d.core.amat_x (VolumeModel coefficients) and compared entrywise "
+        "with C^T M_f C + s mu0 M_e assembled by the checker; plus symmetry, "
+        "gradient null space (every interior node, complex potential), "
+        "solver.residual on fields of drawn amplitudes (inputs and "
+        "coefficients unchanged, repeatable also after a smoother call), the "
+        "LinearOperator that solver.krylov hands to scipy (captured by "
+        "stubbing the scipy solver; matvec on contiguous and strided "
+        "vectors), VolumeModels of a re-used model modified per property "
+        "through setter / in place / on a slab with persistent source "
+        "fields of different provenance, and jit-vs-py_func. Non-trivial = "
+        "non-uniform widths and heterogeneous model; distinct by (shape, "
+        "case, seeds).")
 ASSUMPTIONS = [
     "reference operator refop.assemble is the documented discretisation "
     "(two-cell face average of V/mu_r, four-cell edge average of "
     "V(sigma+s eps)); it shares no code with emg3d.core",
-    "comparison tolerance 1e4*eps relative to the sum of absolute terms",
+    "comparison tolerance 1e4*eps relative to the sum of absolute terms "
+    "(all oracles are relative to |A||e| + |s|, so field amplitudes "
+    "1e-25..1e5 need no absolute floor)",
+    "the Krylov operator is observed by replacing scipy.sparse.linalg.<name> "
+    "(bicgstab/cgs/gcrotmk: the names solve() accepts) with a stub that "
+    "records `A` and returns x0; solver.krylov looks the solver up by name "
+    "at call time.  If a future tree does not reach the stub the case is "
+    "labelled krylov=NOT_CAPTURED instead of judged",
+    "Model input variants are the ones the Model docstring allows ('must be "
+    "broadcastable', array_like); frequency types are float-likes that "
+    "Field accepts (0-d arrays come from surveys loaded from npz files)",
+    "kernels and wrappers are deterministic: two calls with identical "
+    "inputs in one process must give identical arrays",
 ]
 SHARDS = {'quick': 1, 'thorough': 16}
 
 C_EPS = 1e4*np.finfo(float).eps
+
+KINDS = ['uniform', 'stretch', 'random']
+LAYOUTS = ['full', 'flatF', 'layered_z', 'column_x', 'scalar',
+           'fortran_shared', 'int']
+FTYPES = ['float', 'npfloat', 'int', 'array0d']
+KSOLVERS = ['bicgstab', 'cgs', 'gcrotmk']
+PROPS = ['property_x', 'property_y', 'property_z', 'mu_r', 'epsilon_r']
+MODES = ['keep', 'setter', 'setter_scalar', 'inplace', 'slab0', 'slabz']
+PROVS = ['new', 'copy', 'dict', 'data', 'source']
+
+
+def _amp():
+    """log10 of a field amplitude: 1 (as before) or 1e-25..1e5."""
+    return st.one_of(st.just(0.0), st.floats(-25.0, 5.0))
+
+
+def _rare():
+    return st.integers(0, 9).map(lambda k: k == 0)
 
 
 def spec_strategy(shape):
@@ -34,7 +76,112 @@ def spec_strategy(shape):
         'freq': gen.freq_spec(),
         'pyfunc': st.integers(0, 9).map(lambda k: k == 0),
         'fseed': gen.SEED,
+        # --- added (all read with spec.get: old replay files lack them) ---
+        'lgeamp': _amp(), 'lgsamp': _amp(),
+        'ezero': _rare(), 'szero': _rare(),
+        'ftype': st.sampled_from(['float'] + FTYPES),
+        'layout': st.sampled_from(['full', 'full'] + LAYOUTS),
+        'kinds3': st.one_of(st.none(), st.lists(
+            st.sampled_from(KINDS), min_size=3, max_size=3)),
+        'fac2': st.one_of(st.none(), st.none(), st.floats(1.5, 2.0)),
+        'krylov': st.one_of(st.none(), st.fixed_dictionaries({
+            'solver': st.sampled_from(KSOLVERS),
+            'cycle': st.sampled_from([None, 'F']),
+            'strided': st.booleans(),
+            'efield': st.booleans()})),
+        'reuse': st.fixed_dictionaries({
+            'prov': st.lists(st.sampled_from(PROVS), min_size=2, max_size=2),
+            'touch': st.booleans(),
+            'rounds': st.lists(st.fixed_dictionaries(
+                {p: st.sampled_from(MODES) for p in PROPS}),
+                min_size=2, max_size=2)}),
     })
+
+
+# ------------------------------------------------------------- builders
+def _build_widths(gs, kinds3, fac2):
+    """gen.build_widths with one kind per axis / another stretching factor
+    (same consumption of the random stream)."""
+    if kinds3 is None and fac2 is None:
+        return gen.build_widths(gs)
+    rng = gen.rng_of(gs['seed'], 1)
+    fac = gs['fac'] if fac2 is None else fac2
+    out = []
+    for ax, n in enumerate(gs['n']):
+        kind = gs['kind'] if kinds3 is None else kinds3[ax]
+        if kind == 'uniform':
+            h = np.ones(n)*rng.uniform(0.5, 2)
+        elif kind == 'stretch':
+            c = rng.uniform(0, n-1)
+            h = fac**np.abs(np.arange(n)-c)*rng.uniform(0.5, 2)
+        else:
+            h = rng.uniform(0.5, 2, size=n)
+        out.append(h*gs['scale'])
+    origin = rng.uniform(-1, 1, 3)*gs['scale']*np.array(gs['n'])
+    return out, origin
+
+
+def _build_model(emg3d, grid, mspec, bg, layout):
+    """Model built from the input variant `layout`; returns the model, the
+    reference conductivities / mu_r / epsilon_r as full arrays and, for
+    'fortran_shared', the arrays shared with the model and a second model
+    built from the same arrays."""
+    if layout == 'full':
+        model, ref = gen.build_model(grid, mspec, bg)
+        return model, ref, None
+    shape = tuple(grid.shape_cells)
+    mp = mspec['mapping']
+    cond = gen.build_cond(mspec, shape, bg)       # sx, sy, sz, mur, epsr
+    isprop = [True, True, True, False, False]
+    fwd = [(lambda a: gen.map_forward(mp, a)) if p else (lambda a: a)
+           for p in isprop]
+    bwd = [(lambda a: gen.map_backward(mp, a)) if p else
+           (lambda a: np.asarray(a, float)) for p in isprop]
+    inputs, refs = [], []
+    for a, f, b, p in zip(cond, fwd, bwd, isprop):
+        if a is None:
+            inputs.append(None); refs.append(None)
+            continue
+        if layout == 'flatF':
+            inp = f(a).ravel('F')
+            ref = a
+        elif layout == 'layered_z':
+            inp = f(a[:1, :1, :])
+            ref = np.broadcast_to(a[:1, :1, :], shape).copy()
+        elif layout == 'column_x':
+            inp = f(a[:, :1, :1])
+            ref = np.broadcast_to(a[:, :1, :1], shape).copy()
+        elif layout == 'scalar':
+            inp = float(f(a[0, 0, 0]))
+            ref = np.full(shape, a[0, 0, 0])
+        elif layout == 'fortran_shared':
+            inp = np.asfortranarray(f(a), dtype=np.float64)
+            ref = a
+        elif layout == 'int':
+            inp = np.rint(f(a)).astype(np.int64)
+            if not p or mp in ('Conductivity', 'Resistivity'):
+                inp = np.maximum(inp, 1)
+            ref = b(inp.astype(float))
+        else:
+            raise ValueError(layout)
+        inputs.append(inp); refs.append(ref)
+    model = emg3d.Model(grid, inputs[0], inputs[1], inputs[2],
+                        mu_r=inputs[3], epsilon_r=inputs[4], mapping=mp)
+    extra = None
+    if layout == 'fortran_shared':
+        extra = {
+            'arrays': inputs,
+            'snap': [None if a is None else a.copy() for a in inputs],
+            'modelB': emg3d.Model(grid, inputs[0], inputs[1], inputs[2],
+                                  mu_r=inputs[3], epsilon_r=inputs[4],
+                                  mapping=mp)}
+    return model, tuple(refs), extra
+
+
+def _conv_freq(ftype):
+    return {'float': float, 'npfloat': np.float64, 'array0d': np.array,
+            'int': lambda v: int(v) if float(v).is_integer() else float(v)
+            }[ftype]
 
 
 def _apply(kernel, arrs, e, shapes):
@@ -44,23 +191,73 @@ def _apply(kernel, arrs, e, shapes):
     ex = np.asfortranarray(e[:n1].reshape(shapes[0], order='F').astype(dt))
     ey = np.asfortranarray(e[n1:n2].reshape(shapes[1], order='F').astype(dt))
     ez = np.asfortranarray(e[n2:].reshape(shapes[2], order='F').astype(dt))
+    e0 = (ex.copy(), ey.copy(), ez.copy())
     rx = np.zeros(shapes[0], dt, order='F')
     ry = np.zeros(shapes[1], dt, order='F')
     rz = np.zeros(shapes[2], dt, order='F')
     kernel(rx, ry, rz, ex, ey, ez, *arrs)
+    for a, b, c in zip((ex, ey, ez), e0, 'xyz'):
+        if not np.array_equal(a, b):
+            raise Violation(f"kernel_modifies_input:e{c}",
+                            f"amat_x wrote into its input field e{c}")
     return -np.concatenate([rx.ravel('F'), ry.ravel('F'), rz.ravel('F')])
+
+
+def _snapshot(arrs):
+    return [np.array(a, copy=True) for a in arrs]
+
+
+def _same(arrs, snap):
+    return all(np.array_equal(a, b) and np.shape(a) == np.shape(b)
+               for a, b in zip(arrs, snap))
+
+
+def _check_vm(vm, vol, sval, sx, sy, sz, mur, epsr, sig, msg):
+    """VolumeModel coefficients vs the closed formulas."""
+    ee = 0 if epsr is None else sval*refop.epsilon_0*epsr
+    for name, cond in (('eta_x', sx), ('eta_y', sy), ('eta_z', sz)):
+        ref = -sval*refop.mu_0*vol*(cond + ee)
+        got = getattr(vm, name)
+        if np.shape(got) != ref.shape or not np.allclose(
+                got, ref, rtol=1e-12, atol=0):
+            err = (np.max(abs(got-ref)/abs(ref))
+                   if np.shape(got) == ref.shape else np.nan)
+            raise Violation(sig.format(name=name),
+                            f"{name} differs from -s mu0 V (sigma + s eps)"
+                            f"{msg}: max rel {err:.2e}")
+    zref = vol/(1.0 if mur is None else mur)
+    if np.shape(vm.zeta) != zref.shape or not np.allclose(
+            vm.zeta, zref, rtol=1e-12, atol=0):
+        raise Violation(sig.format(name='zeta'),
+                        f"zeta differs from V/mu_r{msg}")
+
+
+def _bucket(lg):
+    if lg == 0:
+        return '1'
+    return '<1e-10' if lg < -10 else ('1e-10..1' if lg < 0 else '>1')
 
 
 def case_operator(spec, rec):
     import emg3d
     from emg3d import core
-    h, origin = gen.build_widths(spec['grid'])
+    new = 'lgeamp' in spec          # False for replay files of older specs
+    kinds3 = spec.get('kinds3')
+    fac2 = spec.get('fac2')
+    h, origin = _build_widths(spec['grid'], kinds3, fac2)
     grid = emg3d.TensorMesh(h, origin=origin)
-    fs = spec['freq']
-    freq = gen.freq_of(fs)
+    ftype = spec.get('ftype', 'float')
+    fs = dict(spec['freq'])
+    if ftype == 'int':              # integer-valued frequency 1..1000
+        fs['f'] = float(max(1, round(fs['f'])))
+    conv = _conv_freq(ftype)
+    fval = gen.freq_of(fs)
+    freq = conv(fval)
     s = gen.sval_of(fs)
     bg = gen.bg_cond(fs, spec['grid']['scale'])
-    model, (sx, sy, sz, mur, epsr) = gen.build_model(grid, spec['model'], bg)
+    layout = spec.get('layout', 'full')
+    model, (sx, sy, sz, mur, epsr), shared = _build_model(
+        emg3d, grid, spec['model'], bg, layout)
     case = spec['model']['case']
     nx, ny, nz = grid.shape_cells
     sfield = emg3d.Field(grid, frequency=freq)
@@ -75,38 +272,44 @@ def case_operator(spec, rec):
     S = (abs(C).T @ sp.diags(Mf) @ abs(C) +
          abs(s)*refop.mu_0*sp.diags(np.abs(Me))).toarray()
     Ad = A.toarray()
+    absA = refop.absmat(A)
 
     # --- VolumeModel coefficients vs closed formulas --------------------
     vol = h[0][:, None, None]*h[1][None, :, None]*h[2][None, None, :]
-    ee = 0 if epsr is None else s*refop.epsilon_0*epsr
-    for name, sig in (('eta_x', sx), ('eta_y', rsy), ('eta_z', rsz)):
-        ref = -s*refop.mu_0*vol*(sig + ee)
-        got = getattr(vm, name)
-        if got.shape != ref.shape or not np.allclose(
-                got, ref, rtol=1e-12, atol=0):
-            raise Violation(f"volume_model:{name}:{case}",
-                            f"{name} differs from -s mu0 V (sigma + s eps): "
-                            f"max rel {np.max(abs(got-ref)/abs(ref)):.2e}")
-    zref = vol/(1.0 if mur is None else mur)
-    if not np.allclose(vm.zeta, zref, rtol=1e-12, atol=0):
-        raise Violation("volume_model:zeta", "zeta differs from V/mu_r")
+    _check_vm(vm, vol, s, sx, rsy, rsz, mur, epsr,
+              "volume_model:{name}:" + case, '')
     if np.isrealobj(sfield.field) != (freq < 0):
         raise Violation("dtype", "Laplace <-> real field broken")
-    _reuse_model(emg3d, spec, grid, model, vol, s, case, sx, rsy, rsz, mur,
-                 epsr, freq)
+    if spec.get('reuse') is None:
+        _reuse_model(emg3d, spec, grid, model, vol, s, case, sx, rsy, rsz,
+                     mur, epsr, freq)
+    else:
+        _reuse_model2(emg3d, spec, rec, grid, model, vol, s, case,
+                      (sx, sy, sz, mur, epsr), freq, conv)
 
     arrs = (vm.eta_x, vm.eta_y, vm.eta_z, vm.zeta, h[0], h[1], h[2])
+    arrs_snap = _snapshot(arrs)
     shapes = ((nx, ny+1, nz+1), (nx+1, ny, nz+1), (nx+1, ny+1, nz))
     ne = A.shape[0]
     dt = sfield.field.dtype
     iint = np.flatnonzero(interior)
+    lgeamp = float(spec.get('lgeamp', 0.0))
+    lgsamp = float(spec.get('lgsamp', 0.0))
+    eamp, samp = 10.0**lgeamp, 10.0**lgsamp
 
     # --- full interior basis through the compiled kernel ----------------
+    # every second column at the drawn field amplitude (linear map: the
+    # column divided by the amplitude must be the same matrix column)
+    camp = np.ones(iint.size)
+    camp[1::2] = eamp
     Aimpl = np.zeros((ne, iint.size), dtype=dt)
     for k, j in enumerate(iint):
         e = np.zeros(ne, dtype=dt)
-        e[j] = 1.0
-        Aimpl[:, k] = _apply(core.amat_x, arrs, e, shapes)
+        e[j] = camp[k]
+        Aimpl[:, k] = _apply(core.amat_x, arrs, e, shapes)/camp[k]
+    if not _same(arrs, arrs_snap):
+        raise Violation("kernel_modifies_coefficients",
+                        "amat_x changed eta/zeta/h arrays it was given")
     Aref = Ad[:, iint]
     rowmax = S.max(axis=1, keepdims=True)
     tol = C_EPS*(S[:, iint] + 1e-3*rowmax)
@@ -122,7 +325,8 @@ def case_operator(spec, rec):
         raise Violation(
             f"operator_mismatch:row_{comp}:{kind}",
             f"A_impl[{i},{iint[k]}]={Aimpl[i, k]:.6e} vs ref "
-            f"{Aref[i, k]:.6e} (scale {S[i, iint[k]]:.3e}); "
+            f"{Aref[i, k]:.6e} (scale {S[i, iint[k]]:.3e}, basis amplitude "
+            f"{camp[k]:.1e}); "
             f"{int(bad.sum())} entries differ; shape {grid.shape_cells}")
     # boundary rows untouched
     if np.any(Aimpl[~interior, :] != 0):
@@ -143,48 +347,105 @@ def case_operator(spec, rec):
     rng = gen.rng_of(spec['fseed'], 7)
     phis = []
     if inodes.size:
-        for j in inodes[:40]:
+        for j in (inodes if new else inodes[:40]):
             p = np.zeros(nn.size); p[j] = 1.0
             phis.append(p)
         p = np.zeros(nn.size); p[inodes] = rng.standard_normal(inodes.size)
         phis.append(p)
+        if new and np.issubdtype(dt, np.complexfloating):
+            p = np.zeros(nn.size, dtype=dt)
+            p[inodes] = (rng.standard_normal(inodes.size) +
+                         1j*rng.standard_normal(inodes.size))*eamp
+            phis.append(p)
+    absAcc = refop.absmat(Acc)
     for p in phis:
         g = G @ p
         out = _apply(core.amat_x, arrs0, g.astype(dt), shapes)
-        sc = refop.absmat(Acc) @ np.abs(g)
+        sc = absAcc @ np.abs(g)
         if np.any(np.abs(out[interior]) > C_EPS*(sc[interior] +
                                                  1e-3*sc.max())):
             raise Violation("curlcurl_gradient_not_annihilated",
                             f"max |CC G phi| = {np.abs(out[interior]).max()}")
 
     # --- solver.residual = s - A e on random fields ----------------------
-    ef = gen.random_field(grid, spec['fseed'], freq, salt=11)
-    sf = gen.random_field(grid, spec['fseed'], freq, salt=12)
+    ef = gen.random_field(grid, spec['fseed'], freq, salt=11, scale=eamp)
+    sf = gen.random_field(grid, spec['fseed'], freq, salt=12, scale=samp)
+    if spec.get('ezero', False):
+        ef.field[:] = 0
+    if spec.get('szero', False):
+        sf.field[:] = 0
+    hvm = list(vm.grid.h)
+    watched = [sf.field, ef.field, vm.eta_x, vm.eta_y, vm.eta_z, vm.zeta,
+               hvm[0], hvm[1], hvm[2]]
+    wnames = ['sfield', 'efield', 'eta_x', 'eta_y', 'eta_z', 'zeta',
+              'hx', 'hy', 'hz']
+    wsnap = _snapshot(watched)
+
+    def unchanged(after):
+        for a, b, n in zip(watched, wsnap, wnames):
+            if not np.array_equal(a, b):
+                raise Violation(f"{after}_modifies:{n}",
+                                f"{after} changed its input {n}")
     r = emg3d.solver.residual(vm, sf, ef)
+    unchanged('residual')
     ref = sf.field - A @ ef.field
-    sc = np.abs(sf.field) + refop.absmat(A) @ np.abs(ef.field)
+    sc = np.abs(sf.field) + absA @ np.abs(ef.field)
     d = np.abs(r.field - ref)
-    if np.any(d[interior] > C_EPS*(sc[interior] + 1e-3*sc.max())):
+    lim = C_EPS*(sc[interior] + 1e-3*sc.max())
+    if np.any(d[interior] > lim):
         raise Violation("residual_mismatch",
-                        f"solver.residual != s - A_ref e; max "
-                        f"{np.max(d[interior]/sc[interior]):.2e} rel")
+                        "solver.residual != s - A_ref e; max "
+                        f"{np.max(d[interior]/np.maximum(lim, 1e-300)):.2e}"
+                        f" x tolerance (|e| ~ {eamp:.1e}, |s| ~ {samp:.1e})")
     nrm = emg3d.solver.residual(vm, sf, ef, norm=True)
+    unchanged('residual')
     if abs(nrm - np.linalg.norm(r.field)) > 1e-12*nrm:
         raise Violation("residual_norm", "norm=True differs from ||r||")
     if r.field.dtype != dt:
         raise Violation("residual_dtype", f"{r.field.dtype} vs {dt}")
+    # repeatable: same inputs, same VolumeModel -> same residual; also
+    # after another kernel (a smoother sweep on a copy of e) used the model
+    r2 = emg3d.solver.residual(vm, sf, ef)
+    if not np.array_equal(r2.field, r.field):
+        raise Violation("residual_not_repeatable:second_call",
+                        "second residual() call with the same arguments "
+                        "returns another field")
+    e2 = ef.copy()
+    core.gauss_seidel(e2.fx, e2.fy, e2.fz, sf.fx, sf.fy, sf.fz, vm.eta_x,
+                      vm.eta_y, vm.eta_z, vm.zeta, hvm[0], hvm[1], hvm[2], 1)
+    unchanged('gauss_seidel')
+    r3 = emg3d.solver.residual(vm, sf, ef)
+    unchanged('residual')
+    if not np.array_equal(r3.field, r.field):
+        raise Violation("residual_not_repeatable:after_smoother",
+                        "residual() differs after the VolumeModel was used "
+                        "by gauss_seidel")
+
+    # --- the operator the Krylov solvers get ------------------------------
+    if spec.get('krylov') is not None:
+        _krylov(emg3d, spec, rec, grid, model, freq, A, absA, interior, iint,
+                ef, eamp, samp, dt)
 
     # --- py_func vs compiled ---------------------------------------------
     if spec['pyfunc']:
         rec.cls('pyfunc')
         vecs = [ef.field]
-        for j in iint[:6]:
-            e = np.zeros(ne, dtype=dt); e[j] = 1
+        if new:
+            rngp = gen.rng_of(spec['fseed'], 23)
+            vecs.append(gen.random_field(grid, spec['fseed'], freq, salt=14,
+                                         scale=eamp).field)
+            cols = rngp.choice(iint, min(6, iint.size), replace=False)
+            amps = [1.0, eamp]*3
+        else:
+            cols = iint[:6]
+            amps = [1.0]*6
+        for j, a in zip(cols, amps):
+            e = np.zeros(ne, dtype=dt); e[j] = a
             vecs.append(e)
         for e in vecs:
             a = _apply(core.amat_x, arrs, e, shapes)
             b = _apply(core.amat_x.py_func, arrs, e, shapes)
-            sc = refop.absmat(A) @ np.abs(e)
+            sc = absA @ np.abs(e)
             if np.any(np.abs(a-b) > C_EPS*(sc + 1e-3*sc.max())):
                 raise Violation("jit_vs_pyfunc",
                                 "compiled amat_x differs from its Python "
@@ -195,12 +456,35 @@ def case_operator(spec, rec):
                 raise Violation("pyfunc_mismatch",
                                 "amat_x.py_func differs from the reference")
 
+    # --- arrays shared between caller and model(s) -------------------------
+    if shared is not None:
+        for a, b, n in zip(shared['arrays'], shared['snap'], PROPS):
+            if a is not None and not np.array_equal(a, b):
+                raise Violation(f"shared_input_modified:{n}",
+                                f"the F-ordered array given to Model as {n} "
+                                "was changed by VolumeModel/residual/solve")
+        vmB = emg3d.models.VolumeModel(shared['modelB'], sfield)
+        _check_vm(vmB, vol, s, sx, rsy, rsz, mur, epsr,
+                  "volume_model_shared:{name}",
+                  " for a second model built from the same arrays")
+
     # --- classification ---------------------------------------------------
     kind = spec['grid']['kind']
+    if kinds3 is not None:
+        kind = kinds3[0] if len(set(kinds3)) == 1 else 'mixed'
     het = spec['model']['hetero'] != 'homog' and spec['model']['decades'] > .1
     rec.cls(f"case={case}", f"widths={kind}", f"mur={mur is not None}",
             f"epsr={epsr is not None}", f"laplace={fs['laplace']}",
             gen.regime(fs), f"shape={nx}x{ny}x{nz}")
+    if new:
+        rec.cls(f"layout={layout}", f"ftype={ftype}",
+                f"eamp={_bucket(lgeamp)}", f"samp={_bucket(lgsamp)}",
+                f"ezero={bool(spec.get('ezero'))}",
+                f"szero={bool(spec.get('szero'))}")
+        if fac2 is not None and 'stretch' in (kinds3 or
+                                              [spec['grid']['kind']]):
+            rec.cls("stretch_factor>1.5")
+        het = het and float(sx.max()) > 1.05*float(sx.min())
     if kind != 'uniform' and het:
         rec.nt([grid.shape_cells, case, spec['grid']['seed'],
                 spec['model']['seed']])
@@ -208,9 +492,212 @@ def case_operator(spec, rec):
               'interior_edges': int(iint.size), 'sval': str(s)})
 
 
+def _krylov(emg3d, spec, rec, grid, model, freq, A, absA, interior, iint,
+            ef, eamp, samp, dt):
+    """Capture the LinearOperator solver.krylov passes to scipy and compare
+    its matvec with the assembled operator."""
+    import scipy.sparse.linalg as ssl
+    ks = spec['krylov']
+    name = ks['solver']
+    cap = {}
+
+    def stub(A, b, x0=None, **kw):
+        cap['A'] = A
+        cap['b'] = b
+        return x0, 0
+    sfk = gen.random_field(grid, spec['fseed'], freq, salt=13, scale=samp)
+    sfk_snap = sfk.field.copy()
+    kw = {}
+    if ks.get('efield'):
+        kw['efield'] = ef.copy()
+    with mock.patch.object(ssl, name, stub):
+        emg3d.solve(model, sfk, sslsolver=name, cycle=ks['cycle'],
+                    semicoarsening=False, linerelaxation=False, verb=-1,
+                    **kw)
+    if 'A' not in cap:
+        rec.cls('krylov=NOT_CAPTURED')
+        return
+    rec.cls(f"krylov={name}", f"krylov_cycle={ks['cycle']}",
+            f"krylov_strided={bool(ks.get('strided'))}")
+    op = cap['A']
+    ne = A.shape[0]
+    if tuple(op.shape) != (ne, ne):
+        raise Violation("krylov_operator:shape",
+                        f"LinearOperator shape {op.shape}, {ne} edges")
+    if np.dtype(op.dtype) != dt:
+        raise Violation("krylov_operator:dtype",
+                        f"LinearOperator dtype {op.dtype}, fields are {dt}")
+    if not np.array_equal(cap['b'], sfk_snap):
+        raise Violation("krylov_operator:rhs",
+                        "right-hand side given to the Krylov solver is not "
+                        "the source field")
+    rng = gen.rng_of(spec['fseed'], 29)
+    vecs = [np.array(ef.field),
+            gen.random_field(grid, spec['fseed'], freq, salt=15,
+                             scale=eamp).field]
+    cols = rng.choice(iint, min(6, iint.size), replace=False)
+    for j, a in zip(cols, [1.0, eamp]*3):
+        e = np.zeros(ne, dtype=dt); e[j] = a
+        vecs.append(e)
+    outs = []
+    for e in vecs:
+        e = np.ascontiguousarray(e, dtype=dt)
+        x = e
+        if ks.get('strided'):
+            big = np.zeros(2*ne, dtype=dt)
+            big[::2] = e
+            x = big[::2]
+        y = op.matvec(x)
+        if not np.array_equal(x, e):
+            raise Violation("krylov_matvec:modifies_input",
+                            "matvec changed the vector it was given")
+        if y.shape != (ne,) or y.dtype != dt:
+            raise Violation("krylov_matvec:dtype",
+                            f"matvec returns {y.dtype}{y.shape} for "
+                            f"{dt}({ne},)")
+        sc = absA @ np.abs(e)
+        d = np.abs(y - A @ e)
+        lim = C_EPS*(sc[interior] + 1e-3*sc.max())
+        if np.any(d[interior] > lim):
+            i = np.flatnonzero(interior)[np.argmax(
+                d[interior]/np.maximum(lim, 1e-300))]
+            raise Violation(
+                "krylov_matvec:mismatch",
+                f"A.matvec(e) of the operator given to scipy.{name} differs "
+                f"from A_ref e on interior edge {i}: {y[i]:.6e} vs "
+                f"{(A @ e)[i]:.6e} (scale {sc[i]:.3e}); "
+                f"{int(np.sum(d[interior] > lim))} rows differ "
+                f"(cycle {ks['cycle']}, strided {bool(ks.get('strided'))}, "
+                f"laplace {freq < 0})")
+        outs.append(y)
+    # the operator is stateless: the first vector again
+    y = op.matvec(np.ascontiguousarray(vecs[0], dtype=dt))
+    if not np.array_equal(y, outs[0]):
+        raise Violation("krylov_matvec:not_repeatable",
+                        "matvec of the same vector differs on a second call")
+
+
+def _make_sfield(emg3d, grid, fr, prov, rng):
+    """Source fields as they reach VolumeModel in practice."""
+    if prov == 'new':
+        return emg3d.Field(grid, frequency=fr)
+    if prov == 'copy':
+        return emg3d.Field(grid, frequency=fr).copy()
+    if prov == 'dict':
+        return emg3d.Field.from_dict(
+            emg3d.Field(grid, frequency=fr).to_dict())
+    if prov == 'data':
+        dtp = np.float64 if fr < 0 else np.complex128
+        data = rng.standard_normal(grid.n_edges).astype(dtp)
+        return emg3d.Field(grid, data, frequency=fr)
+    if prov == 'source':
+        n = grid.nodes_x, grid.nodes_y, grid.nodes_z
+        pt = [float(v[0] + (v[-1]-v[0])*rng.uniform(0.3, 0.7)) for v in n]
+        src = (pt[0], pt[1], pt[2], float(rng.uniform(-180, 180)),
+               float(rng.uniform(-90, 90)))
+        return emg3d.get_source_field(grid, src, frequency=fr)
+    raise ValueError(prov)
+
+
+def _reuse_model2(emg3d, spec, rec, grid, model, vol, s, case, cond, freq,
+                  conv):
+    """The coefficients belong to the model as it is NOW and to the source
+    field's frequency: two persistent source fields (this frequency / another
+    domain) are re-used for every build; between the builds every defined
+    property is left alone, replaced through its setter (array or scalar),
+    or overwritten in place (whole array or one slab), as drawn."""
+    ru = spec['reuse']
+    rng = gen.rng_of(spec['fseed'], 17)
+    m2 = model.copy()
+    mapping = spec['model']['mapping']
+    shape = vol.shape
+    cur = {p: (None if c is None else np.array(c, dtype=float))
+           for p, c in zip(PROPS, cond)}
+    f2raw = -float(freq)*1.7
+    f2 = conv(f2raw)
+    lap = {'f1': bool(freq < 0), 'f2': f2raw < 0}
+    s2 = (-f2raw) if f2raw < 0 else 2j*np.pi*f2raw
+    sfs = {'f1': (_make_sfield(emg3d, grid, freq, ru['prov'][0], rng), s),
+           'f2': (_make_sfield(emg3d, grid, f2, ru['prov'][1], rng), s2)}
+    snaps = {k: v[0].field.copy() for k, v in sfs.items()}
+    rec.cls(*[f"reuse_sfield={p}" for p in ru['prov']])
+    if ru['touch']:
+        for sf, _ in sfs.values():
+            sf.sval, sf.smu0
+    log = []
+
+    def check(tag, which):
+        sf, sval = sfs[which]
+        vm = emg3d.models.VolumeModel(m2, sf)
+        x = cur['property_x']
+        y = cur['property_y'] if case in ('HTI', 'triaxial') else x
+        zz = cur['property_z'] if case in ('VTI', 'triaxial') else x
+        _check_vm(vm, vol, sval, x, y, zz, cur['mu_r'], cur['epsilon_r'],
+                  "volume_model_reuse:{name}:" + tag,
+                  f" for a re-used/modified model (mapping {mapping}, case "
+                  f"{case}, laplace {lap[which]}, "
+                  f"sfields {ru['prov']}, touched {ru['touch']}, "
+                  f"modifications so far {log})")
+        if not np.array_equal(sf.field, snaps[which]):
+            raise Violation("volume_model_modifies_sfield",
+                            "building a VolumeModel changed the source field")
+    before = {p: None if getattr(m2, p) is None else
+              np.array(getattr(m2, p)).copy() for p in PROPS}
+    check('second_domain', 'f2')
+    check('repeat', 'f1')
+    for p, v in before.items():
+        if v is not None and not np.array_equal(v, getattr(m2, p)):
+            raise Violation(f"volume_model_modifies_model:{p}",
+                            f"building a VolumeModel changed model.{p} "
+                            f"(mapping {mapping}, laplace {freq < 0} / "
+                            f"{f2raw < 0}, epsilon_r "
+                            f"{cur['epsilon_r'] is not None})")
+    for rnd, modes in enumerate(ru['rounds']):
+        for p in PROPS:
+            if cur[p] is None:
+                continue
+            mode = modes[p]
+            isprop = p.startswith('property')
+            if isprop:
+                fac = 10**rng.uniform(-0.5, 0.5, size=shape)
+            else:
+                fac = rng.uniform(0.5, 2, size=shape)
+            fwd = ((lambda a: gen.map_forward(mapping, a)) if isprop
+                   else (lambda a: np.asarray(a, float)))
+            newc = cur[p]*fac
+            if mode == 'keep':
+                continue
+            rec.cls(f"reuse_mod={mode}")
+            log.append(f"{p}:{mode}")
+            if mode == 'setter':
+                setattr(m2, p, fwd(newc))
+                cur[p] = newc
+            elif mode == 'setter_scalar':
+                val = float(newc[0, 0, 0])
+                setattr(m2, p, float(fwd(val)))
+                cur[p] = np.full(shape, val)
+            elif mode == 'inplace':
+                getattr(m2, p)[...] = fwd(newc)
+                cur[p] = newc
+            elif mode == 'slab0':
+                getattr(m2, p)[0] = fwd(newc)[0]
+                c = cur[p].copy(); c[0] = newc[0]
+                cur[p] = c
+            elif mode == 'slabz':
+                getattr(m2, p)[:, :, -1] = fwd(newc)[:, :, -1]
+                c = cur[p].copy(); c[:, :, -1] = newc[:, :, -1]
+                cur[p] = c
+            else:
+                raise ValueError(mode)
+        check(f'round{rnd+1}', 'f1')
+        check(f'round{rnd+1}_other_domain', 'f2')
+    check('final_repeat', 'f1')
+
+
 def _reuse_model(emg3d, spec, grid, model, vol, s, case, sx, rsy, rsz, mur,
                  epsr, freq):
-    """The coefficients belong to the model as it is NOW: build VolumeModels
+    """(Specs recorded before the 'reuse' key existed.)  The coefficients
+    belong to the model as it is NOW: build VolumeModels
     repeatedly (other frequency in between), change the model through its
     setters / in place, and compare with the closed formulas again.  The
     model itself must not be modified by building a VolumeModel."""
